@@ -70,8 +70,8 @@ def c09_events(e1: int, p1: int, g1: int, d: int, v: int, kind: int, code: int, 
     S = rt.S
     with World() as w:
         k = w.kernel
-        k.behaviour = BEHS[S.get('beh', 0)]
         var = S.get('var', 'default')
+        k.behaviour = (lambda i, argv: Beh(obey=0.0, ignore=(1,))) if var == 'send_hup' else BEHS[S.get('beh', 0)]
         wa = w.mk_watcher('a', **scen.variant(var, numprocesses=S.get('n0', 2), graceful_timeout=0.2))
         w.boot([wa], check_delay=-1 if var == 'max_age' else 1.0)
         if var == 'max_age':
@@ -129,9 +129,17 @@ def c09_events(e1: int, p1: int, g1: int, d: int, v: int, kind: int, code: int, 
                 if pid is None:
                     continue
                 stopped_meanwhile = any(e in (scen.EV_STOP, scen.EV_RESTART, scen.EV_RELOAD_TERM) for e, _r in sc.reqs)
-                signalled = [s for s in k.signal_log if s['pid'] == pid and s['sig'] != 0]
+                # the supervisor itself was terminating it (not a death "from outside"): it was signalled while alive, or it died
+                # INSIDE the very operation that signalled it (a race the daemon cannot see).  A worker that was already dead when
+                # the operation began is the daemon's to reap -- every operation that re-evaluates the process set looks for the dead first.
+                def _excused(s):
+                    if s['target'] == 'alive':
+                        return True
+                    begun = [c for c in sc.op_calls if c <= s['call']]
+                    return bool(begun) and inj.get('hit_call', 0) > begun[-1]
+                signalled = [s for s in k.signal_log if s['pid'] == pid and s['sig'] != 0 and _excused(s)]
                 if stopped_meanwhile or signalled:
-                    continue                 # the supervisor itself was terminating it: not a death "from outside"
+                    continue
                 rs = reaps.get(pid, [])
                 if not rs:
                     if rt.finding_listed('c09.dead_worker_dropped_without_reap_event'):
